@@ -152,7 +152,7 @@ cmp_contract('__ge__', -1, 1, 'inequality')
 cmp_contract('__gt__', -1, 1, 'inequality')
 cmp_contract('__eq__', 1, -1, 'equality')
 
-contract(EP + 'get_is_leaf', [('self', ET)], returns=TBool,
+contract(EP + 'get_is_leaf', [('self', ET)], pure=True, returns=TBool,
          ensures=lambda S0, S, a, res: [('value', res.t == S0.fld('Expression', '_is_leaf', a['self'].t))])
 contract(CP + 'set_name', [('self', CT), ('name', TOpt(TStr))], returns=TNone,
          ensures=lambda S0, S, a, res: [('stored', z3.And(S.fld_none('Constraint', 'name', a['self'].t) == a['name'].none,
